@@ -39,7 +39,7 @@ type envxSummary struct {
 // c10MapOrderSupervise runs the explorer binary (built by run.sh against the
 // rewritten sources) in parallel shards and merges the summaries.
 func c10MapOrder(r *engine.Run) {
-	bin := filepath.Join(engine.Root, "bin", "verifenvx")
+	bin := filepath.Join(engine.Out, "bin", "verifenvx")
 	if _, err := os.Stat(bin); err != nil {
 		r.EngineError("map-order explorer binary missing (run.sh builds it with -overlay): " + err.Error())
 		return
@@ -122,7 +122,7 @@ func c10MapOrder(r *engine.Run) {
 	if total.Sample != nil {
 		r.Sample("maporder", total.Sample)
 	}
-	if b, err := os.ReadFile(filepath.Join(engine.Root, ".work", "envx", "sites.txt")); err == nil {
+	if b, err := os.ReadFile(filepath.Join(engine.Out, ".work", "envx", "sites.txt")); err == nil {
 		r.Extra["map_order_hooked_sites"] = string(b)
 	}
 }
